@@ -1,19 +1,19 @@
 SPECIFICATION Spec
 CONSTANTS
-  Ids = {"u1", "u2"}
-  Sess = {"c1", "c2"}
+  Ids = {"u1"}
+  Sess = {"c1"}
   MaxOut = 1
   MaxTicks = 1
-  MaxCrashes = 0
+  MaxCrashes = 2
   MaxOps = 3
-  RunEnabled = FALSE
-  Ops = {"submit", "release", "status"}
+  RunEnabled = TRUE
+  Ops = {"submit", "status", "cancel"}
   FindUnitHoldsRLock = FALSE
   KF_EmptyStatus = TRUE
   KF_CancelOverS = TRUE
   KF_LiveRunnerFailed = TRUE
 INVARIANTS
   TypeOK
-  UniqueIDs
-  ReleaseRemoves
+  Durable
   NoStatusBlocks
+  UniqueIDs
